@@ -2,6 +2,7 @@
 """Run every quick check against each behaviour-preserving patch under a directory (expected: all exit 0).
 usage: refcheck.py <dir with */patch.diff> [Cxx ...]"""
 import glob, os, subprocess, sys, tempfile, shutil
+HERE = os.path.dirname(os.path.dirname(os.path.abspath(__file__)))  # the snapshot this script belongs to
 root = sys.argv[1]
 checks = sys.argv[2:] or [f"C{i:02d}" for i in range(1, 18)]
 bad = 0
@@ -16,7 +17,7 @@ for pd_ in sorted(glob.glob(os.path.join(root, "*", "patch.diff"))):
         b = subprocess.run(f"python3 /verif/tools/baseline.py {wt}", shell=True, capture_output=True, text=True)
         res = []
         for c in checks:
-            r = subprocess.run(f"/venv/bin/python -m fmc check {c} --tier quick", shell=True, cwd="/verif", capture_output=True, text=True,
+            r = subprocess.run(f"/venv/bin/python -m fmc check {c} --tier quick", shell=True, cwd=HERE, capture_output=True, text=True,
                                env=dict(os.environ, FMC_REPO=wt))
             if r.returncode != 0:
                 bad += 1
